@@ -26,6 +26,7 @@ Reset ==
   /\ stableUnsub' = [s \in Subs |-> s \notin InitSubscribed]
   /\ dead' = [s \in Subs |-> FALSE]
   /\ delivered' = [s \in Subs |-> <<>>]
+  /\ tgen' = 1 /\ kgen' = [k \in Ctls |-> -1]
   /\ panicked' = FALSE /\ lastRes' = <<>> /\ last' = "init"
 
 Act(a, t, s) ==
